@@ -384,6 +384,9 @@ class PhaseField(_Simu):
             u_np1 = self.__Solve_elastic()
             # new displacement -> new damage matrices
             self.__updatedDamage = False
+            # Ku was assembled with the split (c+, c-) of the previous displacement: it is not the
+            # stiffness of the new state (Psi_Elas, Result("Wdef")) unless the split ignores the strain
+            self.__updatedDisplacement = False
 
             if convOption == 0:
                 convIter = np.max(np.abs(d_np1 - d_n))
